@@ -2,6 +2,9 @@
 
 use std::collections::BTreeMap;
 
+/// message and location of the most recent panic (set by the oracle's panic hook)
+pub static LAST_PANIC: std::sync::Mutex<String> = std::sync::Mutex::new(String::new());
+
 #[derive(Default)]
 pub struct Report {
     pub property: String,
